@@ -24,7 +24,7 @@ CLAIMED = {
          'DESIGN.md section 5 C16'),
  'C06': ('rapidcheck limit-directed operands + exhaustive 8-bit operand planes vs exact GMP results, over 100 operand type pairs, 3 tags, 2 routes and both detection paths on both compilers (hook H1)',
          'for each (op, operand types, tag, route, path) site: overflow must be signalled/saturated iff the exact integer result leaves numeric_limits of the built-in result type, on the correct side, else the exact value is returned; every 8-bit x 8-bit plane for every op is enumerated, wider planes are searched with operands constructed to land on max, max+1, lowest, lowest-1',
-         'trapping is observed through hook H2 (abort hook + longjmp); eight listed known findings are excluded by operand-defined cause regions (mixed signedness with a negative operand, minus on sub-int operands, ...), see known_findings.jsonl',
+         'trapping is observed through hook H2 (abort hook + longjmp); nine listed known findings are excluded by operand-defined cause cells (mixed signedness with a negative operand split into the cells that fail, minus on sub-int operands, ...), see known_findings.jsonl; overflow_integer over wrapper representations (wide_integer<31>, ...) is covered by c06::WrapRep',
          'DESIGN.md section 5 C06'),
  'C07': ('same sites as C06 driven over all operand values (extremes, every shift count, NaN/inf); invariant oracle: no UBSan trap, signal, internal error or failed assertion',
          'totality: every operand value other than zero divisors and negative shift counts must either return or raise the tag\'s own signal; UB is made visible by UBSan traps (signed overflow, shift, division, float-cast) and SIGFPE, internal errors by hook H2; both detection paths forced on both compilers',
@@ -60,7 +60,7 @@ CLAIMED = {
          'DESIGN.md section 5 C12'),
  'C10': ('rapidcheck limb-structured and division-directed operands over 15 (quick) / 27 (thorough) wide_integer instantiations vs GMP reduced to the storage width',
          'every listed operator, comparison, increment, conversion to/from built-in integers and floating point, decimal text and numeric_limits is compared with GMP arithmetic on the value read from the limb array, reduced to two\'s complement of the storage width; limb types of 8/16/32/64 bits and limb counts from 2 to 256 (incl. Karatsuba sizes) make results independent of the limb split',
-         'one listed known finding (Karatsuba multiply with a non-power-of-two limb count, vendored uintwide_t); operator~ of multi-word types is ill-formed on the pinned tree and excluded; to-float is checked as faithful rounding (the statement does not promise more); nondeterministic failures count when they reproduce at least once in three replays',
+         'two listed known findings (Karatsuba multiply with a non-power-of-two limb count, vendored uintwide_t; decimal text of the most negative single-word value); every width 65..331 is swept in the thorough tier (a third of them in the quick tier); operator~ of multi-word types is ill-formed on the pinned tree and excluded; to-float is checked as faithful rounding (the statement does not promise more); nondeterministic failures count when they reproduce at least once in three replays',
          'DESIGN.md section 5 C10'),
  'C17': ('exhaustive float exponent x 512-point mantissa lattice + rapidcheck ratios/decimal/dyadic/near-limit/random inputs + a replayed regression corpus of 108k inputs, vs GMP rationals on the bit-exact input; loop-iteration bound through hook H3',
          'termination (iteration bound), positive denominator, sign, range, exactness for representable ratios and the stated error bound otherwise, for nine (component type, float type) pairs through the constructor and make_fraction; strict where the pinned implementation can be held to the property (integers; ratios when the float type has >= D+16 digits), and a regression corpus of inputs that currently satisfy the property inside the region where it cannot',
@@ -68,7 +68,7 @@ CLAIMED = {
          'DESIGN.md section 5 C17'),
  'C13': ('rapidcheck (value, buffer length, base) triples biased to tiny / capacity / exact-fit lengths + exhaustive value x length planes of 8-bit (quick) and 16-bit (thorough) reps, with pattern-filled guard zones around the buffer',
          'no byte outside [first,last) may change, success returns first < p <= last with [p,last) untouched, failure returns {last, value_too_large}, no assertion / trap / signal / unbounded loop, and to_chars_static, to_string, operator<< and to_chars with a buffer of to_chars_capacity always succeed; over built-in integers in bases 2..36, 128-bit, wide, wrapper and scaled_integer types with exponents -70..70 and radix 2/3/8/10',
-         'out-of-bounds reads are not visible to guard zones; one listed known finding (most negative int/long/__int128); three defects found here were repaired (fix: commits 4f86af0, 1acdda9, 2f5ff9f) and are replayed as regressions',
+         'out-of-bounds reads are not visible to guard zones; one listed known finding (most negative int/long/__int128/wide_integer and wrappers over them, narrowed to its assertion); three defects found here were repaired (fix: commits 4f86af0, 1acdda9, 2f5ff9f) and are replayed as regressions',
          'DESIGN.md section 5 C13'),
  'C14': ('the C13 cases on which to_chars succeeds, judged by a text oracle: GMP numerals for integers, an exact decimal parser and rational bounds for scaled_integer',
          'integer text must equal the canonical numeral of the value in the requested base; scaled_integer text must parse by the stated grammar, carry the sign of the value, not exceed its magnitude, stay within one unit of the last printed digit (plus 1e-16 relative for the 64-bit significand) and be exact whenever the value has <= 18 significant digits and its expansion fits the buffer; the fixed-capacity variants must print what to_chars prints into a buffer of the static capacity',
@@ -84,7 +84,7 @@ CLAIMED = {
          'DESIGN.md section 5 C15'),
  'C11': ('generated programs: a seeded emitter writes typed expression chains over static_number / static_integer leaves (plus fixed chains for multi-word storage and for the listed findings); rapidcheck draws leaf values from the declared range; each node is compared with an exact GMP replay of the chain',
          'node by node: exact value from exact children, the rounded rep quotient for /, the mode-rounded value at the destination resolution for narrowing construction; the CNL value must equal it, or the chain\'s overflow tag must signal (saturated: the bound on the side where the rounded result leaves the declared digits, and the chain continues from the bound; throwing / trapping: exception / abort, and evaluation stops there). A loud signal for a representable result is not counted as silently wrong',
-         'four listed known findings inherited from the layers (C05 floor shift, C08 division bias, C09 conversion bias, shift by >= digits); Narrowest = long does not compile on the pinned tree and is not generated; chains differ per VERIF_SEED except the fixed ones',
+         'seven listed known findings (five inherited from the layers: C05 floor shift, C08 division bias, C09 conversion bias, shift by >= digits, multiply-predicate bias; two of C11's own: << accepts -(2^digits), static_integer built from a positive-exponent static_number is unchecked); chains use + - * / % unary -, <<, ++/--, comparisons, construction and assignment; Narrowest = long does not compile on the pinned tree and is not generated; chains differ per VERIF_SEED except the fixed ones',
          'DESIGN.md section 5 C11'),
 }
 
@@ -120,7 +120,7 @@ def main():
                  dict(name='rc+enum+replay', path='harness/engine.cpp', serves_properties=sorted(CLAIMED),
                       kind_free_text='rapidcheck search over 64-bit word vectors decoded into typed operands per site; exhaustive enumeration of small operand planes; single-case replay. Sites (oracles) in harness/props/*.h, instantiation matrices in vgen/*.py, driver verif.py')],
         checks=checks,
-        notes='All checks rebuild their site TUs from /repo/include (object cache keyed by a hash of that tree). VERIF_SEED drives every random choice. Known findings: known_findings.jsonl. See DESIGN.md.',
+        notes='All checks rebuild their site TUs from /repo/include (object cache keyed by a hash of that tree). VERIF_SEED drives every random choice. Known findings: known_findings.jsonl (cause cells x symptom-specific classes; DESIGN.md 9.4); every run also replays corpus/<ID>.inregion.tsv.gz (inputs inside listed cause regions that satisfy the property on the pinned tree) and regress/<ID>/ (witnesses of repaired defects). Seeded defects used to test the checks: seeded/ (DESIGN.md 9.3). See DESIGN.md.',
         not_applicable=na)
     json.dump(m, open(os.path.join(ROOT, 'MANIFEST.json'), 'w'), indent=1)
     print('MANIFEST.json: %d checks, %d not_applicable' % (len(checks), len(na)))
